@@ -138,6 +138,10 @@ package plush
 //@ requires wf: node == nil || pay(node) != 0
 //@ requires cctx: cctx(c)
 //@ ensures restored: c.ctx == old(c.ctx) && (c.curStmt == nil || pay(c.curStmt) != 0)
+//@ ensures stmtkept: err == nil ==> c.curStmt == old(c.curStmt)
+// evaluating a bare path (an identifier) never runs a statement: the marker is untouched even when it
+// fails (this is what makes the tolerated unknown-identifier faults harmless for C15)
+//@ ensures stmtident: is(node, "*ast.Identifier") ==> c.curStmt == old(c.curStmt)
 //@ ensures ufn: is(result, "*userFunction") ==> pay(result) != 0
 //@ errprop
 //@ assigns c.ctx, c.curStmt, mapsof("map[string]interface{}"), fresh
@@ -147,6 +151,7 @@ package plush
 //@ requires node != nil
 //@ requires cctx: cctx(c)
 //@ ensures restored: c.ctx == old(c.ctx) && (c.curStmt == nil || pay(c.curStmt) != 0)
+//@ ensures stmtkept: err == nil ==> c.curStmt == old(c.curStmt)
 //@ errprop
 //@ assigns c.ctx, c.curStmt, mapsof("map[string]interface{}"), fresh
 
@@ -154,6 +159,7 @@ package plush
 //@ requires node != nil
 //@ requires cctx: cctx(c)
 //@ ensures restored: c.ctx == old(c.ctx) && (c.curStmt == nil || pay(c.curStmt) != 0)
+//@ ensures stmtkept: err == nil ==> c.curStmt == old(c.curStmt)
 //@ errprop
 //@ assigns c.ctx, c.curStmt, mapsof("map[string]interface{}"), fresh
 
@@ -169,6 +175,7 @@ package plush
 //@ requires node != nil
 //@ requires cctx: cctx(c)
 //@ ensures restored: c.ctx == old(c.ctx) && (c.curStmt == nil || pay(c.curStmt) != 0)
+//@ ensures stmtkept: err == nil ==> c.curStmt == old(c.curStmt)
 //@ errprop tolerate is(e, "*ErrUnknownIdentifier") && is(node.Right, "*ast.Identifier")
 //@ assigns c.ctx, c.curStmt, mapsof("map[string]interface{}"), fresh
 
@@ -188,6 +195,7 @@ package plush
 //@ requires node != nil
 //@ requires cctx: cctx(c)
 //@ ensures restored: c.ctx == old(c.ctx) && (c.curStmt == nil || pay(c.curStmt) != 0)
+//@ ensures stmtkept: err == nil ==> c.curStmt == old(c.curStmt)
 //@ errprop tolerate is(e, "*ErrUnknownIdentifier") && is(node.Condition, "*ast.Identifier")
 //@ assigns c.ctx, c.curStmt, mapsof("map[string]interface{}"), fresh
 
@@ -209,14 +217,17 @@ package plush
 //@ requires node != nil
 //@ requires cctx: cctx(c)
 //@ ensures restored: c.ctx == old(c.ctx) && (c.curStmt == nil || pay(c.curStmt) != 0)
+//@ ensures stmtkept: err == nil ==> c.curStmt == old(c.curStmt)
 //@ errprop tolerate is(e, "*ErrUnknownIdentifier") && is(eiNode.Condition, "*ast.Identifier")
 //@ assigns c.ctx, c.curStmt, mapsof("map[string]interface{}"), fresh
 //@ loop 1: invariant cctx(c) && c.ctx == old(c.ctx)
+//@ loop 1: invariant stmt: c.curStmt == old(c.curStmt)
 
 //@ func (c *compiler) evalReturnStatement
 //@ requires node != nil
 //@ requires cctx: cctx(c)
 //@ ensures restored: c.ctx == old(c.ctx) && (c.curStmt == nil || pay(c.curStmt) != 0)
+//@ ensures stmtkept: err == nil ==> c.curStmt == old(c.curStmt)
 //@ errprop
 //@ assigns c.ctx, c.curStmt, mapsof("map[string]interface{}"), fresh
 
@@ -227,6 +238,7 @@ package plush
 //@ requires wf: node != nil && pay(node) != 0
 //@ requires cctx: cctx(c)
 //@ ensures restored: c.ctx == old(c.ctx) && (c.curStmt == nil || pay(c.curStmt) != 0)
+//@ ensures stmtkept: err == nil ==> c.curStmt == old(c.curStmt)
 //@ errprop
 //@ assigns c.ctx, c.curStmt, mapsof("map[string]interface{}"), fresh
 
@@ -235,27 +247,33 @@ package plush
 //@ requires node != nil
 //@ requires cctx: cctx(c)
 //@ ensures restored: c.ctx == old(c.ctx) && (c.curStmt == nil || pay(c.curStmt) != 0)
+//@ ensures stmtkept: err == nil ==> c.curStmt == old(c.curStmt)
 //@ errprop
 //@ assigns c.ctx, c.curStmt, mapsof("map[string]interface{}"), fresh
 //@ loop 1: invariant cctx(c) && c.ctx == old(c.ctx)
+//@ loop 1: invariant stmt: c.curStmt == old(c.curStmt)
 
 //@ func (c *compiler) evalArrayLiteral
 //@ ensures ufn: is(result, "*userFunction") ==> pay(result) != 0
 //@ requires node != nil
 //@ requires cctx: cctx(c)
 //@ ensures restored: c.ctx == old(c.ctx) && (c.curStmt == nil || pay(c.curStmt) != 0)
+//@ ensures stmtkept: err == nil ==> c.curStmt == old(c.curStmt)
 //@ errprop
 //@ assigns c.ctx, c.curStmt, mapsof("map[string]interface{}"), fresh
 //@ loop 1: invariant cctx(c) && c.ctx == old(c.ctx)
+//@ loop 1: invariant stmt: c.curStmt == old(c.curStmt)
 
 //@ func (c *compiler) evalHashLiteral
 //@ ensures ufn: is(result, "*userFunction") ==> pay(result) != 0
 //@ requires node != nil
 //@ requires cctx: cctx(c)
 //@ ensures restored: c.ctx == old(c.ctx) && (c.curStmt == nil || pay(c.curStmt) != 0)
+//@ ensures stmtkept: err == nil ==> c.curStmt == old(c.curStmt)
 //@ errprop
 //@ assigns c.ctx, c.curStmt, mapsof("map[string]interface{}"), fresh
 //@ loop 1: invariant cctx(c) && c.ctx == old(c.ctx)
+//@ loop 1: invariant stmt: c.curStmt == old(c.curStmt)
 
 //@ pred cctx(c *compiler) = is(c.ctx, "*Context") && pay(c.ctx) != 0 && (c.curStmt == nil || pay(c.curStmt) != 0)
 
@@ -270,6 +288,7 @@ package plush
 //@ requires wfargs: forall i int :: 0 <= i && i < len(args) ==> (args[i] == nil || pay(args[i]) != 0)
 //@ requires cctx: cctx(c)
 //@ ensures restored: c.ctx == old(c.ctx) && (c.curStmt == nil || pay(c.curStmt) != 0)
+//@ ensures stmtkept: err == nil ==> c.curStmt == old(c.curStmt)
 //@ ensures arity: len(args) < len(node.Parameters) ==> err != nil
 // C16: the evaluated argument values are held in storage of this call only
 //@ owned vals
@@ -277,12 +296,15 @@ package plush
 //@ assigns c.ctx, c.curStmt, mapsof("map[string]interface{}"), fresh
 //@ loop 1: invariant callerscope: cctx(c) && c.ctx == old(c.ctx) && len(vals) == len(node.Parameters) && len(args) >= len(node.Parameters) && 0 <= ridx1
 //@ loop 2: invariant calleescope: cctx(c) && octx == old(c.ctx) && c.ctx != old(c.ctx) && len(vals) == len(node.Parameters) && 0 <= ridx2
+//@ loop 1: invariant stmt: c.curStmt == old(c.curStmt)
+//@ loop 2: invariant stmt: c.curStmt == old(c.curStmt)
 
 //@ func (c *compiler) evalIndexExpression
 //@ ensures ufn: is(result, "*userFunction") ==> pay(result) != 0
 //@ requires node != nil
 //@ requires cctx: cctx(c)
 //@ ensures restored: c.ctx == old(c.ctx) && (c.curStmt == nil || pay(c.curStmt) != 0)
+//@ ensures stmtkept: err == nil ==> c.curStmt == old(c.curStmt)
 //@ errprop
 //@ assigns c.ctx, c.curStmt, mapsof("map[string]interface{}"), fresh
 
@@ -305,6 +327,7 @@ package plush
 //@ requires node != nil
 //@ requires cctx: cctx(c)
 //@ ensures restored: c.ctx == old(c.ctx) && (c.curStmt == nil || pay(c.curStmt) != 0)
+//@ ensures stmtkept: err == nil ==> c.curStmt == old(c.curStmt)
 //@ errprop
 //@ assigns c.ctx, c.curStmt, mapsof("map[string]interface{}"), fresh
 
@@ -316,13 +339,17 @@ package plush
 //@ loop 2: invariant len(ggg) >= 1 && cctx(c) && octx == unbox(old(c.ctx), "*Context")
 //@ requires cctx: cctx(c)
 //@ ensures restored: c.ctx == old(c.ctx) && (c.curStmt == nil || pay(c.curStmt) != 0)
+//@ ensures stmtkept: err == nil ==> c.curStmt == old(c.curStmt)
 //@ errprop
 //@ assigns c.ctx, c.curStmt, mapsof("map[string]interface{}"), fresh
+//@ loop 1: invariant stmt: c.curStmt == old(c.curStmt)
+//@ loop 2: invariant stmt: c.curStmt == old(c.curStmt)
 
 // C11: member access. cv is the evaluated callee; rvd its value after one transparent pointer dereference;
 // fld the reflect field of that name (reflect's own semantics = what Go navigation yields).
 //@ spec rvd(cv any) reflect.Value = indirect(rvOf(cv))
 //@ func (c *compiler) evalIdentifier
+//@ ensures stmtsame: c.curStmt == old(c.curStmt)
 //@ ghost cv = callresult after evalExpression
 //@ ghost cverr = callresult1 after evalExpression
 //@ ensures nilcallee: node.Callee != nil && cverr == nil && cv == nil ==> result == nil
@@ -339,6 +366,7 @@ package plush
 //@ requires node != nil
 //@ requires cctx: cctx(c)
 //@ ensures restored: c.ctx == old(c.ctx) && (c.curStmt == nil || pay(c.curStmt) != 0)
+//@ ensures stmtkept: err == nil ==> c.curStmt == old(c.curStmt)
 //@ errprop
 //@ assigns c.ctx, c.curStmt, mapsof("map[string]interface{}"), fresh
 
@@ -366,6 +394,7 @@ package plush
 //@ requires node != nil
 //@ requires cctx: cctx(c)
 //@ ensures restored: c.ctx == old(c.ctx) && (c.curStmt == nil || pay(c.curStmt) != 0)
+//@ ensures stmtkept: err == nil ==> c.curStmt == old(c.curStmt)
 //@ errprop tolerate is(e, "*ErrUnknownIdentifier") && (node.Operator == "==" || node.Operator == "!=" || node.Operator == "&&" || node.Operator == "||") && (is(node.Left, "*ast.Identifier") || is(node.Right, "*ast.Identifier"))
 //@ assigns c.ctx, c.curStmt, mapsof("map[string]interface{}"), fresh
 
@@ -406,8 +435,13 @@ package plush
 //@ loop 4: invariant cctx(c) && octx == unbox(old(c.ctx), "*Context")
 //@ requires cctx: cctx(c)
 //@ ensures restored: c.ctx == old(c.ctx) && (c.curStmt == nil || pay(c.curStmt) != 0)
+//@ ensures stmtkept: err == nil ==> c.curStmt == old(c.curStmt)
 //@ errprop
 //@ assigns c.ctx, c.curStmt, mapsof("map[string]interface{}"), fresh
+//@ loop 1: invariant stmt: c.curStmt == old(c.curStmt)
+//@ loop 2: invariant stmt: c.curStmt == old(c.curStmt)
+//@ loop 3: invariant stmt: c.curStmt == old(c.curStmt)
+//@ loop 4: invariant stmt: c.curStmt == old(c.curStmt)
 
 // ---- C08: every element once, in order; break/continue keep what the iteration produced ------------
 // resval: what an iteration contributes to the loop's result (continue/break objects carry it)
@@ -447,8 +481,13 @@ package plush
 //@ requires node != nil
 //@ requires cctx: cctx(c)
 //@ ensures restored: c.ctx == old(c.ctx) && (c.curStmt == nil || pay(c.curStmt) != 0)
+//@ ensures stmtkept: err == nil ==> c.curStmt == old(c.curStmt)
 //@ errprop
 //@ assigns c.ctx, c.curStmt, mapsof("map[string]interface{}"), fresh
+//@ loop 1: invariant stmt: c.curStmt == old(c.curStmt)
+//@ loop 2: invariant stmt: c.curStmt == old(c.curStmt)
+//@ loop 3: invariant stmt: c.curStmt == old(c.curStmt)
+//@ loop 4: invariant stmt: c.curStmt == old(c.curStmt)
 
 //@ iface plush.Iterator.Next(it) r
 //@ assigns mapsof("map[string]interface{}"), fresh
@@ -488,11 +527,19 @@ package plush
 //@ requires prog: c.program != nil
 //@ ensures rendered: err == nil ==> trusted(result)
 //@ ensures restored: c.ctx == old(c.ctx) && (c.curStmt == nil || pay(c.curStmt) != 0)
+//@ ensures stmtkept: err == nil ==> c.curStmt == nil
 //@ ensures empty: err != nil ==> result == ""
+// C15: the line reported is that of the innermost statement that was being evaluated when the failure
+// arose (c.curStmt, which a statement that completes leaves as it found it - clause stmtkept of every
+// evaluator function - so it can only be a statement of the failing top-level statement), else that
+// of the failing top-level statement itself; never a statement of an earlier, completed tag
+//@ requires nostmt: c.curStmt == nil
 //@ ensures line: err != nil && c.curStmt != nil ==> linemsg(err, box(ast.tokof(c.curStmt).LineNumber))
+//@ ensures linetop: err != nil && c.curStmt == nil ==> linemsg(err, box(ast.tokof(stmt).LineNumber))
 //@ errprop
 //@ assigns c.ctx, c.curStmt, mapsof("map[string]interface{}"), fresh
 //@ loop 1: invariant cctx(c) && c.ctx == old(c.ctx) && c.program == old(c.program) && bb != nil && trusted(out(bb))
+//@ loop 1: invariant nostale: c.curStmt == nil
 
 //@ func (t *Template) Parse
 //@ ensures ok: err == nil ==> t.program != nil
@@ -524,6 +571,7 @@ package plush
 //@ requires hc: !(is(hc, "*Context") && pay(hc) == 0)
 //@ requires comp: h.compiler != nil && cctx(h.compiler)
 //@ ensures restored: h.compiler.ctx == old(h.compiler.ctx) && (h.compiler.curStmt == nil || pay(h.compiler.curStmt) != 0)
+//@ ensures stmtkept: err == nil ==> h.compiler.curStmt == old(h.compiler.curStmt)
 //@ ensures empty: err != nil ==> result == ""
 //@ errprop
 //@ assigns h.compiler.ctx, h.compiler.curStmt, mapsof("map[string]interface{}"), fresh
@@ -533,6 +581,7 @@ package plush
 //@ requires hc: !(is(h.Context, "*Context") && pay(h.Context) == 0)
 //@ requires comp: h.compiler != nil && cctx(h.compiler)
 //@ ensures restored: h.compiler.ctx == old(h.compiler.ctx) && (h.compiler.curStmt == nil || pay(h.compiler.curStmt) != 0)
+//@ ensures stmtkept: err == nil ==> h.compiler.curStmt == old(h.compiler.curStmt)
 //@ ensures empty: err != nil ==> result == ""
 //@ errprop
 //@ assigns h.compiler.ctx, h.compiler.curStmt, mapsof("map[string]interface{}"), fresh
